@@ -456,7 +456,7 @@ def bounds(vars_):
 def cases(tier):
   out = []
   combos = []
-  for wk, wmv in (("qbits", None), ("binary", None), ("ternary", None), ("po2", "none"), ("po2", "le1")):
+  for wk, wmv in (("qbits", None), ("binary", None), ("ternary", None), ("po2", "none"), ("po2", "le1"), ("po2", "v3"), ("po2", "v6")):
     for xk in ("qbits", "qrelu"):
       for bk in ("qbits", None):
         combos.append((wk, wmv, xk, bk))
@@ -465,6 +465,10 @@ def cases(tier):
       full = ("QDense", "QConv2D") if tier == "thorough" else ("QDense",)
       if lt not in full and (wk not in ("qbits", "binary") or xk != "qbits"):
         continue
+      if (wmv or "").startswith("v") and (lt != "QDense" or xk != "qbits"):
+        continue                       # concrete non-power-of-two max_value: dense layer, fixed-point input only
+      if tier != "thorough" and (wmv == "v6" or (wk == "po2" and xk != "qbits")):
+        continue                       # quick tier: one non-po2 cap, po2 weights with fixed-point inputs only
       name = "%s_%s%s_x_%s_bias-%s" % (lt, wk, "" if wmv is None else "-mv" + wmv, xk, bk or "none")
       out.append(Case(PROP, GM, name, map_scenario(lt, wk, wmv, xk, bk), bounds=bounds,
                       replay_kind="c18_map", assumptions=ASSUME))
